@@ -130,6 +130,25 @@ let handle (w : string list) : string =
            Printf.sprintf "%s enabled=%d crashed=%s out=%s log=%s"
              (if Model.terminal st then "TERMINAL" else "RUNNING") (int_of_nat (Model.enabled_count Model.tag_tr Model.tag_event (buf ()) pad st))
              (match Model.crashed st with None -> "-" | Some w -> string_of_int (int_of_nat w)) (hex out) (Buffer.contents b))
+  | "cli" :: toks ->
+      let rec z_of_int i = if i = 0 then Z0 else if i > 0 then Zpos (pos_of_int i) else Zneg (pos_of_int (-i)) in
+      let int_of_z = function Z0 -> 0 | Zpos p -> int_of_pos p | Zneg p -> - (int_of_pos p) in
+      let fk s = if s = "M" then FMissing else if s = "P" then FPlain else FWenc (nat_of_int (int_of_string (String.sub s 1 (String.length s - 1)))) in
+      let tok s =
+        match String.split_on_char ':' s with
+        | ["e"] -> T_e | ["d"] -> T_d | ["v"] -> T_v | ["V"] -> T_V | ["h"] -> T_h | ["n"] -> T_n
+        | ["i"; l; d; f] -> T_i (l = "1", d = "1", fk f)
+        | ["o"; b] -> T_o (b = "1")
+        | ["k"; "I"] -> T_k KInvalid
+        | ["k"; v] -> T_k (KValid (nat_of_int (int_of_string (String.sub v 1 (String.length v - 1)))))
+        | ["c"; n] -> T_cmode (z_of_int (int_of_string n))
+        | ["m"; n] -> T_hmode (z_of_int (int_of_string n))
+        | _ -> T_other in
+      (match Model.cli (List.map tok (List.filter (fun x -> x <> "") toks)) with
+       | Crash0 -> "CRASH"
+       | Exit (c, d, op) ->
+           Printf.sprintf "EXIT %d diag=%d op=%s" (int_of_z c) (if d then 1 else 0)
+             (match op with None -> "-" | Some (m, ok) -> Printf.sprintf "%d:%d" (int_of_z m) (if ok then 1 else 0)))
   | _ -> "?"
 
 let () =
